@@ -1,4 +1,6 @@
 pub mod c09;
+pub mod c12;
+pub mod c14;
 
 use crate::common::*;
 use serde_json::Value;
@@ -6,6 +8,8 @@ use serde_json::Value;
 pub fn run_property(ctx: &mut Ctx) -> bool {
     match ctx.id.as_str() {
         "C09" => c09::run(ctx),
+        "C12" => c12::run(ctx),
+        "C14" => c14::run(ctx),
         _ => return false,
     }
     true
@@ -44,6 +48,8 @@ pub fn replay(body: &Value) -> i32 {
     let part = body["part"].as_str().unwrap_or("");
     match part {
         "segments" => replay_part(&c09::SegPart, body),
+        "checksum" => replay_part(&c14::CkPart, body),
+        "confinement" => replay_part(&c12::FsPart, body),
         other => {
             eprintln!("unknown part {other:?} in replay file");
             2
